@@ -69,6 +69,22 @@ func mkFH(id int64) *histogram.FloatHistogram {
 		PositiveSpans: []histogram.Span{{Offset: 0, Length: 1}}, PositiveBuckets: []float64{1}}
 }
 
+// counter (non-gauge) float histogram: a lower id after a higher one is a counter reset, at which
+// the float histogram appender starts a new chunk.
+func mkCounterFH(id int64) *histogram.FloatHistogram {
+	h := mkFH(id)
+	h.CounterResetHint = histogram.UnknownCounterReset
+	return h
+}
+
+func toSamplesCounter(l []S) []chunks.Sample {
+	r := make([]chunks.Sample, len(l))
+	for i, s := range l {
+		r[i] = smp{t: s.T, fh: mkCounterFH(s.V)}
+	}
+	return r
+}
+
 func toSample(s S) chunks.Sample {
 	switch s.K {
 	case 2:
@@ -404,6 +420,7 @@ type setsDesc struct {
 	Labels []int   `json:"out_labels"`
 	Shape  string  `json:"shape"`
 	Corpus string  `json:"corpus,omitempty"`
+	Reuse  int     `json:"reuse,omitempty"`
 }
 
 type chunksDesc struct {
@@ -455,7 +472,36 @@ func hasTies(inputs [][]S) (ties, mixedTies bool) {
 	return
 }
 
+// chainSeq runs consecutive merged series on ONE iterator object:
+// it = ChainedSeriesMerge(stage k ...).Iterator(it). Every stage is emitted as its own KChain
+// case (the specification and the model know nothing about the object being reused).
+type stage struct {
+	inputs [][]S
+	script []Op
+}
+
+func (h *H) chainSeq(stages []stage, corpus string) {
+	var it chunkenc.Iterator
+	ctx := ""
+	for k, st := range stages {
+		script := st.script
+		if k > 0 {
+			script = noMinSeekFirst(script)
+		}
+		ctx += fmt.Sprint(st.inputs, script, "|")
+		name := ""
+		if corpus != "" {
+			name = fmt.Sprintf("%s#stage%d", corpus, k)
+		}
+		h.chainCaseOn(st.inputs, script, name, &it, ctx)
+	}
+}
+
 func (h *H) chainCase(inputs [][]S, script []Op, corpus string) {
+	h.chainCaseOn(inputs, script, corpus, nil, "")
+}
+
+func (h *H) chainCaseOn(inputs [][]S, script []Op, corpus string, reuse *chunkenc.Iterator, ctx string) {
 	var it chunkenc.Iterator
 	if len(inputs) == 0 {
 		// ChainedSeriesMerge() of nothing is nil; the iterator itself can still be built empty.
@@ -465,7 +511,17 @@ func (h *H) chainCase(inputs [][]S, script []Op, corpus string) {
 		for i, l := range inputs {
 			series[i] = storage.NewListSeries(labels.FromStrings("a", "1"), toSamples(l))
 		}
-		it = storage.ChainedSeriesMerge(series...).Iterator(nil)
+		var prev chunkenc.Iterator
+		if reuse != nil {
+			prev = *reuse
+		}
+		it = storage.ChainedSeriesMerge(series...).Iterator(prev)
+		if reuse != nil {
+			if prev != nil && it == prev {
+				h.meta.Hit("chain-iterator-reused")
+			}
+			*reuse = it
+		}
 	}
 	obs := runScript(it, script)
 	ties, mixed := hasTies(inputs)
@@ -486,10 +542,36 @@ func (h *H) chainCase(inputs [][]S, script []Op, corpus string) {
 		h.meta.Hit(shape)
 	}
 	term := fmt.Sprintf("KChain %s %s %s", gSLL(inputs), gOps(script), gObs(obs))
-	h.emit(term, chainDesc{"chain", inputs, script, obs, shape, corpus}, "chain"+fmt.Sprint(inputs, script), len(inputs) >= 2 && len(union(inputs)) > 1)
+	h.emit(term, chainDesc{"chain", inputs, script, obs, shape, corpus}, "chain"+fmt.Sprint(inputs, script)+ctx, len(inputs) >= 2 && len(union(inputs)) > 1)
+}
+
+// isChain tells whether it is the storage package's chainSampleIterator (unexported type).
+func isChain(it chunkenc.Iterator) bool {
+	return fmt.Sprintf("%T", it) == "*storage.chainSampleIterator"
+}
+
+// noMinSeekFirst: a reused chainSampleIterator keeps its stale curr; a first Seek(MinInt64) would hit
+// the no-op check against the MinInt64 sentinel (see notes) — kept out of the reuse scripts.
+func noMinSeekFirst(script []Op) []Op {
+	if len(script) > 0 && script[0].Seek && script[0].T == math.MinInt64 {
+		c := append([]Op{}, script...)
+		c[0].T = math.MinInt64 + 1
+		return c
+	}
+	return script
 }
 
 func (h *H) setsCase(sets [][]Ser, limit int, script []Op, corpus string) {
+	h.setsCaseReuse(sets, limit, script, corpus, 0)
+}
+
+// reuse: 0 = every merged series gets a fresh iterator (Iterator(nil)); 1 = the consumer passes the
+// previous iterator back (it = s.Iterator(it), as the PromQL engine and remote read do);
+// 2 = the last chainSampleIterator seen is passed back (reuse across interleaved single series).
+func (h *H) setsCaseReuse(sets [][]Ser, limit int, script []Op, corpus string, reuse int) {
+	if reuse != 0 {
+		script = noMinSeekFirst(script)
+	}
 	ss := make([]storage.SeriesSet, len(sets))
 	for i, set := range sets {
 		ls := &listSet{}
@@ -503,10 +585,31 @@ func (h *H) setsCase(sets [][]Ser, limit int, script []Op, corpus string) {
 	var outLabels []int
 	shape := fmt.Sprintf("sets-n%d", len(sets))
 	allMinDropped, anyFail := true, false
+	var prevIt, chainIt chunkenc.Iterator
+	reused := 0
 	for m.Next() {
 		s := m.At()
 		rk := rankOf(s.Labels())
-		obs := runScript(s.Iterator(nil), script)
+		var cur chunkenc.Iterator
+		switch reuse {
+		case 1:
+			cur = s.Iterator(prevIt)
+			if prevIt != nil && cur == prevIt {
+				reused++
+			}
+			prevIt = cur
+		case 2:
+			cur = s.Iterator(chainIt)
+			if chainIt != nil && cur == chainIt {
+				reused++
+			}
+			if isChain(cur) {
+				chainIt = cur
+			}
+		default:
+			cur = s.Iterator(nil)
+		}
+		obs := runScript(cur, script)
 		outs = append(outs, gallina.Pair(gallina.Z(int64(rk)), gObs(obs)))
 		outLabels = append(outLabels, rk)
 		// inputs of this label, for the known-finding shape
@@ -538,6 +641,12 @@ func (h *H) setsCase(sets [][]Ser, limit int, script []Op, corpus string) {
 	if limit > 0 {
 		h.meta.Hit("sets-limit")
 	}
+	if reuse != 0 {
+		h.meta.Hit("sets-iterator-passed-back")
+	}
+	if reused > 0 {
+		h.meta.Hit("sets-chain-iterator-reused")
+	}
 	overlap := false
 	seen := map[int]bool{}
 	for _, set := range sets {
@@ -560,7 +669,7 @@ func (h *H) setsCase(sets [][]Ser, limit int, script []Op, corpus string) {
 		gsets = append(gsets, gallina.List(it))
 	}
 	term := fmt.Sprintf("KSets %s %s %s %s", gallina.List(gsets), gallina.Z(int64(limit)), gOps(script), gallina.List(outs))
-	h.emit(term, setsDesc{"sets", sets, limit, script, outLabels, shape, corpus}, "sets"+fmt.Sprint(sets, limit, script), overlap)
+	h.emit(term, setsDesc{"sets", sets, limit, script, outLabels, shape, corpus, reuse}, "sets"+fmt.Sprint(sets, limit, script, reuse), overlap)
 }
 
 func decodeChunk(m chunks.Meta) Chk {
@@ -576,11 +685,20 @@ func decodeChunk(m chunks.Meta) Chk {
 }
 
 func (h *H) chunksCase(its [][]Chk, compacting bool, corpus string) {
+	h.chunksCaseOpt(its, compacting, corpus, false)
+}
+
+// counterFH: all samples are float histograms (K = 3) encoded as counter histograms.
+func (h *H) chunksCaseOpt(its [][]Chk, compacting bool, corpus string, counterFH bool) {
 	series := make([]storage.ChunkSeries, len(its))
 	for i, l := range its {
 		metas := make([]chunks.Meta, len(l))
 		for j, c := range l {
-			m, err := chunks.ChunkFromSamples(toSamples(c.S))
+			smpls := toSamples(c.S)
+			if counterFH {
+				smpls = toSamplesCounter(c.S)
+			}
+			m, err := chunks.ChunkFromSamples(smpls)
 			if err != nil {
 				panic(err)
 			}
@@ -664,8 +782,11 @@ func (h *H) chunksCase(its [][]Chk, compacting bool, corpus string) {
 	} else {
 		h.meta.Hit("chunks-error")
 	}
-	term := fmt.Sprintf("KChunks %s %s %s", gallina.Bool(compacting), gallina.List(gits), obs)
-	h.emit(term, chunksDesc{"chunks", compacting, its, out, errS, shape, corpus}, "chunks"+fmt.Sprint(its, compacting), compacting && len(its) >= 2 && len(out) != nin)
+	if counterFH {
+		h.meta.Hit("chunks-counter-reset-float-histograms")
+	}
+	term := fmt.Sprintf("KChunks %s %s %s %s", gallina.Bool(compacting), gallina.Bool(!counterFH), gallina.List(gits), obs)
+	h.emit(term, chunksDesc{"chunks", compacting, its, out, errS, shape, corpus}, "chunks"+fmt.Sprint(its, compacting, counterFH), compacting && len(its) >= 2 && len(out) != nin)
 }
 
 // ---------------------------------------------------------------- chunk generators
@@ -736,6 +857,13 @@ func main() {
 	h.setsCase([][]Ser{{{0, fl(1, 2)}, {2, fl(1)}}, {{0, fl(2, 3)}, {1, fl(7)}}, {}}, 0, drain(4), "sets-basic")
 	h.setsCase([][]Ser{{{0, fl(1, 2)}, {2, fl(1)}}}, 1, drain(3), "single-set-ignores-limit")
 	h.setsCase(nil, 0, drain(1), "no-sets")
+	// iterator reuse: the next merged series starts exactly at the previous one's last timestamp
+	h.chainSeq([]stage{{[][]S{fl(1, 2, 3), fl(2, 3)}, drain(5)}, {[][]S{fl(3), fl(3, 4)}, drain(4)},
+		{[][]S{fl(4), fl(4)}, drain(3)}, {[][]S{fl(1, 9), fl(2)}, drain(5)}, {[][]S{fl(9, 10), fl(9)}, []Op{{Seek: true, T: 0}, {}, {}}}}, "reuse-chain")
+	for _, mode := range []int{1, 2} {
+		h.setsCaseReuse([][]Ser{{{0, fl(1, 2, 5)}, {1, fl(5)}, {3, fl(6, 7)}}, {{0, fl(2, 5)}, {1, fl(5, 6)}, {2, fl(6)}, {3, fl(7)}}}, 0, drain(6), "reuse-sets-next-starts-at-last", mode)
+		h.setsCaseReuse([][]Ser{{{0, fl(1, 2, 5)}, {1, fl(3)}, {3, fl(9)}}, {{0, fl(2, 5)}, {1, fl(3, 6)}, {3, fl(8)}}}, 0, drain(6), "reuse-sets-below-above", mode)
+	}
 	{
 		a := genChunkIter(gen.Fork(7, 0), 0, 2, false, false)
 		h.chunksCase([][]Chk{a, cloneIter(a), cloneIter(a)}, true, "replica-chunks")
@@ -750,6 +878,16 @@ func main() {
 		h.chunksCase([][]Chk{{big}, {mkChk(fl(1, 3, 301))}}, true, "reencode-splits-at-120-and-repushes")
 		h.chunksCase([][]Chk{{big}, {mkChk(fl(1, 3, 241)), mkChk(fl(250, 300))}, {mkChk(fl(245, 246))}}, true, "repushed-remainder-overlaps-again")
 		h.chunksCase([][]Chk{a, cloneIter(a)}, false, "concat")
+		fh := func(p ...int64) Chk {
+			var ss []S
+			for i := 0; i < len(p); i += 2 {
+				ss = append(ss, S{T: p[i], K: 3, V: p[i+1]})
+			}
+			return mkChk(ss)
+		}
+		// two replicas at different counter levels: every merged neighbour is a counter reset
+		h.chunksCaseOpt([][]Chk{{fh(0, 10, 10, 20, 20, 30)}, {fh(5, 1, 15, 2)}}, true, "fh-counter-reset-inside-overlap", true)
+		h.chunksCaseOpt([][]Chk{{fh(0, 10, 10, 20), fh(30, 40, 40, 50)}, {fh(5, 1, 35, 2)}, {fh(7, 3, 50, 60)}}, true, "fh-counter-reset-two-overlaps", true)
 		h.chunksCase(nil, true, "no-series")
 	}
 
@@ -796,6 +934,46 @@ func main() {
 		h.chainCase(inputs, script, "")
 	}
 	base += nChain
+	nSeq := f.Count(40, 1500)
+	for i := 0; i < nSeq; i++ {
+		r := gen.Fork(f.Seed, base+i)
+		mixed := r.Chance(1, 3)
+		var stages []stage
+		last := int64(r.Intn(5))
+		for k := 0; k < 2+r.Intn(3); k++ {
+			// first timestamp of this stage relative to the previous stage's last one
+			start := last + int64(r.Intn(3)) - 1 // below / equal / above
+			if r.Chance(1, 5) {
+				start = int64(r.Intn(6))
+			}
+			n := 2 + r.Intn(3)
+			inputs := make([][]S, n)
+			for j := range inputs {
+				d := tsDom{lo: start, hi: start + 5}
+				inputs[j] = genSeries(r, d, 1+r.Intn(4), mixed, false)
+				if r.Chance(1, 2) { // make sure some input starts exactly at start
+					kd := 1
+					if len(inputs[j]) > 0 {
+						kd = inputs[j][0].K
+					}
+					if len(inputs[j]) == 0 || inputs[j][0].T > start {
+						inputs[j] = append([]S{{T: start, K: kd, V: int64(r.Intn(6))}}, inputs[j]...)
+					}
+				}
+			}
+			u := union(inputs)
+			script := drain(len(u) + 1)
+			if r.Chance(1, 5) {
+				script = genScript(r, tsDom{lo: start, hi: start + 5}, 4+r.Intn(6), 40)
+			}
+			stages = append(stages, stage{inputs, script})
+			if len(u) > 0 {
+				last = u[len(u)-1]
+			}
+		}
+		h.chainSeq(stages, "")
+	}
+	base += nSeq
 	for i := 0; i < nSets; i++ {
 		r := gen.Fork(f.Seed, base+i)
 		d := tsDom{lo: 0, hi: 12}
@@ -822,7 +1000,14 @@ func main() {
 		} else {
 			script = genScript(r, d, 3+r.Intn(6), 40)
 		}
-		h.setsCase(sets, limit, script, "")
+		reuse := r.Intn(3)
+		if reuse != 0 {
+			script = drain(16) // drain each series to its end so that lastT is its last timestamp
+			if r.Chance(1, 4) {
+				script = genScript(r, d, 8+r.Intn(6), 30)
+			}
+		}
+		h.setsCaseReuse(sets, limit, script, "", reuse)
 	}
 	base += nSets
 	for i := 0; i < nChunks; i++ {
@@ -856,6 +1041,28 @@ func main() {
 			meta.Hit("chunks-malformed-iterator")
 		}
 		h.chunksCase(its, !r.Chance(1, 8), "")
+	}
+	base += nChunks
+	nFH := f.Count(25, 800)
+	for i := 0; i < nFH; i++ {
+		r := gen.Fork(f.Seed, base+i)
+		n := 2 + r.Intn(3)
+		its := make([][]Chk, n)
+		for j := range its {
+			level := int64(1 + r.Intn(40)) // each replica counts from its own level: resets when merged
+			t := int64(r.Intn(6))
+			for c := 0; c < 1+r.Intn(3); c++ {
+				var ss []S
+				for k := 0; k < 1+r.Intn(4); k++ {
+					t += 1 + int64(r.Intn(4))
+					level += int64(r.Intn(3))
+					ss = append(ss, S{T: t, K: 3, V: level})
+				}
+				its[j] = append(its[j], mkChk(ss))
+				t += int64(r.Intn(3))
+			}
+		}
+		h.chunksCaseOpt(its, true, "", true)
 	}
 
 	cf.Flush()
